@@ -115,13 +115,7 @@ pub open spec fn from_roots(g: Graph, roots: Set<String>, sorted: Seq<String>) -
 #[verifier::external_body]
 pub struct ExPathBuf(std::path::PathBuf);
 
-//@ EXTRACT-TYPE file=src/models.rs struct=StructInfo
-//@ EXTRACT-TYPE file=src/models.rs struct=FieldInfo
-//@ EXTRACT-TYPE file=src/models.rs struct=ValidatorAttributes
-//@ EXTRACT-TYPE file=src/models.rs struct=LengthConstraint
-//@ EXTRACT-TYPE file=src/models.rs struct=RangeConstraint
-//@ EXTRACT-TYPE file=src/models.rs enum=TypeStructure
-//@ EXTRACT-TYPE crate=serde-rename-rule file=src/lib.rs enum=RenameRule
+//@ INCLUDE units/inc/models.rs
 
 impl TypeDependencyGraph {
 
